@@ -462,8 +462,13 @@ package vuego
 //@   ensures fresh(r) && r != nil && fresh(r.Slots) && r.Slots != nil
 //@ func (v *Vue) evalVHtml(ctx, n) (err)
 //@   modifies n.Attr, n.FirstChild, n.LastChild, caches(v)
+//@   ensures C02.vhtml.internal: len(n.Attr) == old(len(n.Attr)) || (len(n.Attr) == old(len(n.Attr)) + 1 && n.Attr[len(n.Attr) - 1].Key == "data-v-html-content")
+//@   ensures C02.vhtml.keeps: len(n.Attr) >= old(len(n.Attr)) && forall i int :: 0 <= i && i < old(len(n.Attr)) ==> n.Attr[i] == old(n.Attr[i])
 //@ func (v *Vue) evalVText(ctx, n) (err)
 //@   modifies n.Attr, n.FirstChild, n.LastChild, caches(v)
+//@   ensures C01.vtext.escaped: len(n.Attr) == old(len(n.Attr)) || (len(n.Attr) == old(len(n.Attr)) + 1 &&
+//@     n.Attr[len(n.Attr) - 1].Key == "data-v-text-content" && (exists t string :: n.Attr[len(n.Attr) - 1].Val == Esc(t)))
+//@   ensures C01.vtext.keeps: len(n.Attr) >= old(len(n.Attr)) && forall i int :: 0 <= i && i < old(len(n.Attr)) ==> n.Attr[i] == old(n.Attr[i])
 //@ func (v *Vue) setStyleProperty(n, property, value)
 //@   modifies n.Attr, elems(n.Attr)
 //@ func (v *Vue) evalVShow(ctx, n) (err)
